@@ -95,10 +95,23 @@ func init() {
 		Judged:     []string{"C05 tails judged", "C05 tails with commit", "C05 completeness judged", "C05 tails starting above view 0", "C05 completeness not judged: committing view's proposal predates stabilisation", "C05 not judged: every explored height already decided"},
 		Extra: func(run *harness.Run) ([]harness.Finding, map[string]interface{}, []string) {
 			r := sim.ScriptHeavyMember()
-			return sim.ScriptedFindings("C05", "heavy-member", r), map[string]interface{}{"scripted_known_finding_scenario": "weights 1,7,1,1 with the three light members Byzantine and silent: the correct member holds quorum weight alone", "scripted_steps": r.Steps}, nil
+			fs := sim.ScriptedFindings("C05", "heavy-member", r)
+			ev := map[string]interface{}{"scripted_known_finding_scenario": "weights 1,7,1,1 with the three light members Byzantine and silent: the correct member holds quorum weight alone", "scripted_steps": r.Steps}
+			// the timeout -> VIEW_CHANGE step also depends on the main-loop -> worker hand-off of the election trigger, which the
+			// synchronous sim cannot see: the rt "ctx" scenario offers the trigger of the current pair while a stale one sits in the
+			// worker's one-slot inbox; a lost trigger means the member never votes again
+			rfs, rev, inc := rtPart(run, "ctx", 48, 2000, map[string]int{"C19 current triggers judged": 6})
+			for _, f := range rfs {
+				if f.Prop == "C19" && f.Rule == "current-trigger-not-acted-upon" {
+					f.Prop, f.Rule = "C05", "election-trigger-lost-in-hand-off"
+					fs = append(fs, f)
+				}
+			}
+			ev["rt_ctx"] = rev
+			return fs, ev, inc
 		}})
 	reg(&sim.SimCheck{Prop: "C12", Workload: "c12", Profile: func(th bool) *sim.Profile {
-		p := advProfile(merge(noBare, map[string]int{"garbage": 30, "hugeView": 20, "mutate": 50, "vcGames": 10, "crossInstance": 6, "support": 10, "badBlock": 6}), 350, 2)(th)
+		p := advProfile(merge(noBare, map[string]int{"garbage": 30, "hugeView": 20, "mutate": 50, "vcGames": 10, "crossInstance": 6, "support": 10, "badBlock": 6, "corruptNested": 25}), 350, 2)(th)
 		p.Tail, p.TailQuiet, p.TailProp, p.NoRejects = true, true, "C12", true
 		p.LenientValidators = true
 		return p
